@@ -41,6 +41,7 @@ import sys
 import tempfile
 
 ID = "C20"
+REPO_TESTS = "C20"   # the repository's tests also run under this property's monitors
 LEVEL = "fault_enumeration"
 RULE = ("enumerated completely: 9 subpackages x star import; every public name of every "
         "subpackage (__all__ plus public names the package binds) x its scenario (3-14 labelled "
